@@ -208,16 +208,23 @@ func c11(p *P) {
 						if a, ok := u.X.(*ssa.Alloc); ok {
 							// the struct is assembled in an alloc: the maxEpoch stores that reach this return
 							var vals []string
-							n := 0
-							allDerive := true
+							n, nAny := 0, 0
+							allDerive, anyDerive := true, true
 							for _, rr := range *a.Referrers() {
 								if fa, ok := rr.(*ssa.FieldAddr); ok && fieldName(fa.X.Type(), fa.Field) == "maxEpoch" {
 									for _, r2 := range *fa.Referrers() {
-										if st, ok := r2.(*ssa.Store); ok && st.Addr == fa && dominates(st, ret) {
-											n++
-											vals = append(vals, canon(st.Val))
-											if !(st.Val == mx[0].Instr.(ssa.Value) || dependsOnPhi(st.Val, mx[0].Instr.(ssa.Value))) {
-												allDerive = false
+										if st, ok := r2.(*ssa.Store); ok && st.Addr == fa {
+											derives := st.Val == mx[0].Instr.(ssa.Value) || dependsOnPhi(st.Val, mx[0].Instr.(ssa.Value))
+											nAny++
+											if !derives {
+												anyDerive = false
+											}
+											if dominates(st, ret) {
+												n++
+												vals = append(vals, canon(st.Val))
+												if !derives {
+													allDerive = false
+												}
 											}
 										}
 									}
@@ -225,6 +232,11 @@ func c11(p *P) {
 							}
 							mv = strings.Join(vals, ",")
 							okStat = n > 0 && allDerive
+							if n == 0 && nAny > 0 && anyDerive && strings.Contains(canon(mx[0].Instr.(ssa.Value)), ".maxEpoch") {
+								// the maximum is accumulated in place in the stat's own field (zero when nothing was decoded)
+								okStat = true
+								mv = "accumulated in place: " + canon(mx[0].Instr.(ssa.Value))
+							}
 						}
 					}
 					if mv == "" {
